@@ -278,6 +278,10 @@ pub broadcast proof fn lemma_fsum_ref_is_fsum(rem: Seq<&f64>, s: Seq<f64>, k: in
 {
     if k > 0 { lemma_fsum_ref_is_fsum(rem, s, k - 1); }
 }
+// Iterator::all: NOT specified (the result is an arbitrary boolean): code whose outcome depends on it
+// can only be proved if it is correct for both answers
+#[verifier::external_body]
+pub fn __all<I: Iterator, F: FnMut(I::Item) -> bool>(it: I, f: F) -> (r: bool) { unimplemented!() }
 
 // ---- prelude fragment: iter_ext_ideal.rs ----
 // (idealised) the additive identity Iterator::sum starts from denotes 0
@@ -385,6 +389,104 @@ proof {
 
                 }
             }
+
+
+pub open spec fn post(a: Seq<f64>, thresh: f64, b: Seq<f64>) -> bool {
+    b.len() == a.len()
+    && (    surv_sum(a, thresh, a.len() as int) > 0real ==>
+        (forall|i: int| 0 <= i < a.len() ==> rv(#[trigger] b[i]) ==
+            (if rv(a[i]) > rv(thresh) { rv(a[i]) / surv_sum(a, thresh, a.len() as int) } else { 0real }))
+        && rsum(b, a.len() as int) == 1real)
+    && (    !(surv_sum(a, thresh, a.len() as int) > 0real) ==> b == a)
+}
+pub open spec fn dist(a: Seq<f64>) -> bool {
+    (forall|i: int| 0 <= i < a.len() ==> rv(#[trigger] a[i]) >= 0real) && rsum(a, a.len() as int) == 1real
+}
+pub proof fn lemma_surv_le(a: Seq<f64>, h: f64, k: int)
+    requires 0 <= k <= a.len(), forall|i: int| 0 <= i < a.len() ==> rv(#[trigger] a[i]) >= 0real,
+    ensures 0real <= surv_sum(a, h, k) <= rsum(a, k),
+    decreases k
+{ if k > 0 { lemma_surv_le(a, h, k - 1); } }
+// b's survivors are a's survivors, each divided by S
+pub proof fn lemma_surv_again(a: Seq<f64>, b: Seq<f64>, h: f64, s: real, k: int)
+    requires 0 <= k <= a.len(), a.len() == b.len(), 0real < s <= 1real,
+        forall|i: int| 0 <= i < a.len() ==> rv(#[trigger] a[i]) >= 0real,
+        forall|i: int| 0 <= i < a.len() ==> rv(#[trigger] b[i]) == (if rv(a[i]) > rv(h) { rv(a[i]) / s } else { 0real }),
+    ensures surv_sum(b, h, k) == surv_sum(a, h, k) / s,
+        forall|i: int| 0 <= i < a.len() ==> ((rv(#[trigger] b[i]) > rv(h)) == (rv(a[i]) > rv(h))) || (rv(b[i]) == 0real && rv(a[i]) == 0real),
+    decreases k
+{
+    assert forall|i: int| 0 <= i < a.len() implies ((rv(#[trigger] b[i]) > rv(h)) == (rv(a[i]) > rv(h))) || (rv(b[i]) == 0real && rv(a[i]) == 0real) by {
+        let x = rv(a[i]);
+        if x > rv(h) {
+            assert(x / s >= x) by(nonlinear_arith) requires 0real < s <= 1real, x >= 0real;
+        } else if rv(h) < 0real {
+            // x >= 0 > h contradicts !(x > h)
+        } else {
+            // b[i] == 0 <= h: not a survivor either
+        }
+    }
+    if k <= 0 {
+        assert(0real / s == 0real) by(nonlinear_arith) requires s != 0real;
+    } else {
+        lemma_surv_again(a, b, h, s, k - 1);
+        let x = rv(a[k - 1]);
+        let xa = if x > rv(h) { x } else { 0real };
+        let xb = if rv(b[k - 1]) > rv(h) { rv(b[k - 1]) } else { 0real };
+        assert(xb == xa / s) by {
+            assert(0real / s == 0real) by(nonlinear_arith) requires s != 0real;
+            if x > rv(h) { assert(x / s >= x) by(nonlinear_arith) requires 0real < s <= 1real, x >= 0real; }
+        }
+        assert(surv_sum(a, h, k - 1) / s + xa / s == (surv_sum(a, h, k - 1) + xa) / s) by(nonlinear_arith) requires s != 0real;
+    }
+}
+pub proof fn lemma_surv_all(a: Seq<f64>, h: f64, k: int)
+    requires 0 <= k <= a.len(), forall|i: int| 0 <= i < a.len() ==> rv(#[trigger] a[i]) >= 0real,
+        forall|i: int| 0 <= i < a.len() ==> (rv(#[trigger] a[i]) > 0real ==> rv(a[i]) > rv(h)),
+    ensures surv_sum(a, h, k) == rsum(a, k),
+    decreases k
+{ if k > 0 { lemma_surv_all(a, h, k - 1); } }
+pub proof fn lemma_low_threshold_noop(a: Seq<f64>, b: Seq<f64>, thresh: f64)
+    requires dist(a), post(a, thresh, b),
+        forall|i: int| 0 <= i < a.len() ==> (rv(#[trigger] a[i]) > 0real ==> rv(a[i]) > rv(thresh)),
+    ensures
+        // a threshold below every positive probability changes nothing (idealised reals)
+        forall|i: int| 0 <= i < a.len() ==> rv(#[trigger] b[i]) == rv(a[i]), // @ob C18.V.truncate.low_threshold_noop
+{
+    let n = a.len() as int;
+    lemma_surv_all(a, thresh, n);
+    assert forall|i: int| 0 <= i < n implies rv(#[trigger] b[i]) == rv(a[i]) by {
+        let y = rv(a[i]);
+        assert(y / 1real == y) by(nonlinear_arith);
+    }
+}
+pub proof fn lemma_truncate_idempotent(a: Seq<f64>, b: Seq<f64>, c: Seq<f64>, thresh: f64)
+    requires dist(a), post(a, thresh, b), post(b, thresh, c),
+    ensures
+        // truncating the truncated infoset again changes nothing (idealised reals)
+        c.len() == b.len() && forall|i: int| 0 <= i < b.len() ==> rv(#[trigger] c[i]) == rv(b[i]), // @ob C18.V.truncate.idempotent
+{
+    let n = a.len() as int;
+    let s = surv_sum(a, thresh, n);
+    lemma_surv_le(a, thresh, n);
+    if s > 0real {
+        lemma_surv_again(a, b, thresh, s, n);
+        assert(s / s == 1real) by(nonlinear_arith) requires s > 0real;
+        assert(surv_sum(b, thresh, n) == 1real);
+        assert forall|i: int| 0 <= i < n implies rv(#[trigger] c[i]) == rv(b[i]) by {
+            let y = rv(b[i]);
+            assert(y / 1real == y) by(nonlinear_arith);
+            if y > rv(thresh) { } else {
+                // not a survivor of the second pass: it was 0 already, or it is a survivor of the first whose
+                // quotient does not exceed h -- excluded by lemma_surv_again
+                assert(((rv(b[i]) > rv(thresh)) == (rv(a[i]) > rv(thresh))) || (rv(b[i]) == 0real && rv(a[i]) == 0real));
+            }
+        }
+    } else {
+        assert(b == a);
+        assert(c == b);
+    }
+}
 
 
 // vacuity canary: must be REJECTED by the verifier (an inconsistent axiom set would accept it)
